@@ -53,24 +53,24 @@ mod set_reach__src2;
 mod cp__ser;
 mod lex_lat__ser;
 mod lat_two_keys__pari;
-mod count_paths__pari;
-mod count_paths__src2;
-mod neg_basic__to;
-mod neg_basic__redecl;
-mod neg_basic__exp;
-mod agg_depth__to;
-mod agg_user__par;
-mod agg_bound_mix__par;
-mod disj__par;
-mod disj__src1;
-mod disj__ren;
-mod disj_nested__exppar;
-mod rep_expr__pari;
-mod neg_in_disj__ser;
-mod mac_basic__to;
-mod mac_basic__redecl;
-mod mac_capture__pari;
-mod mac_disj__ser;
+mod lat_val_bound__pari;
+mod count_paths__gen;
+mod neg_basic__ser;
+mod neg_basic__src0;
+mod neg_basic__perm2;
+mod agg_depth__ser;
+mod agg_lattice__to;
+mod neg_rec_after__exp;
+mod agg_empty__to;
+mod disj__mrt;
+mod disj__srcpar;
+mod disj_nested__par;
+mod pat_args__exppar;
+mod multi_head_disj__pari;
+mod mac_basic__ser;
+mod mac_basic__src0;
+mod mac_basic__exppar;
+mod mac_nested__pari;
 
 fn lookup(name: &str) -> fn() -> Box<dyn Driven> {
    match name {
@@ -119,24 +119,24 @@ fn lookup(name: &str) -> fn() -> Box<dyn Driven> {
       "cp__ser" => cp__ser::make,
       "lex_lat__ser" => lex_lat__ser::make,
       "lat_two_keys__pari" => lat_two_keys__pari::make,
-      "count_paths__pari" => count_paths__pari::make,
-      "count_paths__src2" => count_paths__src2::make,
-      "neg_basic__to" => neg_basic__to::make,
-      "neg_basic__redecl" => neg_basic__redecl::make,
-      "neg_basic__exp" => neg_basic__exp::make,
-      "agg_depth__to" => agg_depth__to::make,
-      "agg_user__par" => agg_user__par::make,
-      "agg_bound_mix__par" => agg_bound_mix__par::make,
-      "disj__par" => disj__par::make,
-      "disj__src1" => disj__src1::make,
-      "disj__ren" => disj__ren::make,
-      "disj_nested__exppar" => disj_nested__exppar::make,
-      "rep_expr__pari" => rep_expr__pari::make,
-      "neg_in_disj__ser" => neg_in_disj__ser::make,
-      "mac_basic__to" => mac_basic__to::make,
-      "mac_basic__redecl" => mac_basic__redecl::make,
-      "mac_capture__pari" => mac_capture__pari::make,
-      "mac_disj__ser" => mac_disj__ser::make,
+      "lat_val_bound__pari" => lat_val_bound__pari::make,
+      "count_paths__gen" => count_paths__gen::make,
+      "neg_basic__ser" => neg_basic__ser::make,
+      "neg_basic__src0" => neg_basic__src0::make,
+      "neg_basic__perm2" => neg_basic__perm2::make,
+      "agg_depth__ser" => agg_depth__ser::make,
+      "agg_lattice__to" => agg_lattice__to::make,
+      "neg_rec_after__exp" => neg_rec_after__exp::make,
+      "agg_empty__to" => agg_empty__to::make,
+      "disj__mrt" => disj__mrt::make,
+      "disj__srcpar" => disj__srcpar::make,
+      "disj_nested__par" => disj_nested__par::make,
+      "pat_args__exppar" => pat_args__exppar::make,
+      "multi_head_disj__pari" => multi_head_disj__pari::make,
+      "mac_basic__ser" => mac_basic__ser::make,
+      "mac_basic__src0" => mac_basic__src0::make,
+      "mac_basic__exppar" => mac_basic__exppar::make,
+      "mac_nested__pari" => mac_nested__pari::make,
       _ => panic!("no such program variant in this shard: {}", name),
    }
 }
